@@ -142,6 +142,65 @@ def processRawK (ka : RawConfig → Int) (lower : String → String) (raw : RawC
 /-- `ProcessRawConfig` with the KeepAlive statement of the tree being checked -/
 def processRaw (lower : String → String) (raw : RawConfig) : Except Err Cfg := processRawK keepAliveOf lower raw
 
+/-! ### `ParseConfig`: the JSON document, and what `cmd/ck-client` does with the result -/
+
+/-- the top-level JSON value of the configuration text, as `encoding/json` sees it (decoding stays on the Go side) -/
+inductive Doc
+  | null                       -- the JSON value `null`
+  | object (raw : RawConfig)   -- an object that decodes into `RawConfig` (absent members keep the zero value)
+  | other                      -- anything `json.Unmarshal` refuses for a struct: array, string, number, bool, syntax error
+deriving DecidableEq, Repr
+
+/-- `new(RawConfig)` -/
+def emptyRaw : RawConfig := ⟨"", "", "", [], [], 0, "", "", "", "", [], false, "", "", "", "", 0, 0⟩
+
+/-- `ParseConfig` after the text has been obtained: `raw = new(RawConfig); err = json.Unmarshal(content, target)`.
+`onNull` (extracted) says what the document `null` leads to: `"nil-config"` — the target is the pointer variable
+(`&raw`), `null` stores a nil pointer, no error, nothing tests it: `(nil, nil)`; `"error"` — the same target followed
+by a nil test that returns an error; `"empty-config"` — the target is the struct, `null` is a no-op. -/
+def parseDoc (onNull : String) : Doc → Except Unit (Option RawConfig)
+  | .null => if onNull = "nil-config" then .ok none else if onNull = "error" then .error () else .ok (some emptyRaw)
+  | .object raw => .ok (some raw)
+  | .other => .error ()
+
+inductive Loaded
+  | parseError
+  | configError (e : Err)
+  | ok (c : Cfg)
+  | nilDereference      -- `cmd/ck-client` reads `rawConfig.RemoteHost` of a nil `*RawConfig`: the process dies
+deriving DecidableEq, Repr
+
+/-- `ParseConfig` followed by what `cmd/ck-client` does (it uses the result without a nil test, then `ProcessRawConfig`) -/
+def loadDocWith (onNull : String) (lower : String → String) (d : Doc) : Loaded :=
+  match parseDoc onNull d with
+  | .error _ => .parseError
+  | .ok none => .nilDereference
+  | .ok (some raw) =>
+    match processRaw lower raw with
+    | .ok c => .ok c
+    | .error e => .configError e
+
+def loadDoc (lower : String → String) (d : Doc) : Loaded := loadDocWith Gen.ClientCfg.parseNullOutcome lower d
+
+/-! ### the first connection made with an accepted configuration -/
+
+inductive Connect | proceeds | panics
+deriving DecidableEq, Repr
+
+/-- `makeAuthenticationPayload`: `ecdh.GenerateSharedSecret(ephemeral, ServerPubKey)`; `dhFails pk` = `curve25519.X25519`
+refuses `pk` ("bad input point: low order point": the shared secret would be all-zero whatever the private key is).
+The client answers that error with `log.Panicf` (extracted). -/
+def firstConnect (dhFails : Bytes → Bool) (c : Cfg) : Connect :=
+  if Gen.ClientCfg.authPayloadPanicsOnDHError && dhFails c.serverPubKey then .panics else .proceeds
+
+/-- the server name in the ClientHello of one connection; `fresh` = what `randomServerName()` draws for it.
+`strings.EqualFold(name, "random")` is `lower name = "random"` for the ASCII names used. -/
+def sniOf (lower : String → String) (c : Cfg) (fresh : String) : String :=
+  let randomises := match c.transport with
+    | .direct _ => Gen.ClientCfg.directRandomisesServerName
+    | .cdn _ => Gen.ClientCfg.cdnRandomisesServerName
+  if randomises && lower c.mockDomain = "random" then fresh else c.mockDomain
+
 /-! ### `ssvToJson` on `List Char` -/
 
 abbrev Str := List Char
